@@ -256,30 +256,22 @@ theorem keyedTail_paths (p : Path) (sr orr : List KE) : ∀ q ∈ (keyedTail p s
 
 /-! ### the options that the key generation reads -/
 
-theorem recordKey_congr (c c' : Cfg) (htr : c.tr = c'.tr) (p : Path) (kvs : List (Str × Val)) :
-    ∀ (ks : List Str) (acc : Str), recordKey c p kvs ks acc = recordKey c' p kvs ks acc
-  | [], acc => by simp [recordKey]
+theorem recordFields_congr (c c' : Cfg) (htr : c.tr = c'.tr) (q : Path) (kvs : List (Str × Val)) :
+    ∀ (ks : List Str) (acc : List (Str × Val)), recordFields c q kvs ks acc = recordFields c' q kvs ks acc
+  | [], acc => by simp [recordFields]
   | key :: rest, acc => by
-    simp only [recordKey, htr]
+    simp only [recordFields, transformAt, transformAtStr, htr]
     cases Val.lookup key kvs with
-    | none => exact recordKey_congr c c' htr p kvs rest acc
-    | some v =>
-      simp only
-      split
-      · exact recordKey_congr c c' htr p kvs rest _
-      · split
-        · rfl
-        · split
-          · exact recordKey_congr c c' htr p kvs rest _
-          · rfl
+    | none => exact recordFields_congr c c' htr q kvs rest acc
+    | some v => exact recordFields_congr c c' htr q kvs rest _
 
 theorem keysOf_congr (c c' : Cfg) (htr : c.tr = c'.tr) (hck : c.ck = c'.ck) (p : Path) :
-    ∀ (xs : List Val), keysOf c p xs = keysOf c' p xs
-  | [] => rfl
-  | x :: xs => by
-    have hk : keyOf c p x = keyOf c' p x := by
-      cases x <;> simp [keyOf, hck, recordKey_congr c c' htr, transformAt, transformAtStr, htr]
-    simp only [keysOf, hk, keysOf_congr c c' htr hck p xs]
+    ∀ (i : Nat) (xs : List Val), keysOf c p i xs = keysOf c' p i xs
+  | _, [] => rfl
+  | i, x :: xs => by
+    have hk : keyOf c p i x = keyOf c' p i x := by
+      cases x <;> simp [keyOf, hck, recordFields_congr c c' htr, transformAt, transformAtStr, htr]
+    simp only [keysOf, hk, keysOf_congr c c' htr hck p (i + 1) xs]
 
 /-! ### PART 2: `compare_only` -/
 
@@ -296,8 +288,8 @@ def noOnly (cfg : Cfg) : Cfg := { cfg with only := .many [] }
 @[simp] theorem onlyOk_noOnly (cfg : Cfg) (p : Path) : onlyOk (noOnly cfg) p = true := rfl
 @[simp] theorem classifyItem_noOnly (cfg : Cfg) (p pne pdt : Path) (sa oa x y : Val) :
     classifyItem (noOnly cfg) p pne pdt sa oa x y = classifyItem cfg p pne pdt sa oa x y := rfl
-@[simp] theorem keysOf_noOnly (cfg : Cfg) (p : Path) (xs : List Val) : keysOf (noOnly cfg) p xs = keysOf cfg p xs :=
-  keysOf_congr (noOnly cfg) cfg rfl rfl p xs
+@[simp] theorem keysOf_noOnly (cfg : Cfg) (p : Path) (i : Nat) (xs : List Val) : keysOf (noOnly cfg) p i xs = keysOf cfg p i xs :=
+  keysOf_congr (noOnly cfg) cfg rfl rfl p i xs
 
 @[simp] theorem onlyKeep_key (cfg : Cfg) (p : Path) (k : Str) : onlyKeep cfg (p ++ [.key k]) = onlyOk cfg (p ++ [.key k]) := by
   simp [onlyKeep, onlyOk]
@@ -389,12 +381,12 @@ theorem sub_only (cfg : Cfg) (site : Site) (p : Path) (v w : Val) (r : Res)
             · rw [if_pos h4] at h ⊢
               exact directWalk_only cfg p _ _ 0 xs ys r h
             · rw [if_neg h4] at h ⊢
-              cases hk : keysOf cfg p xs with
+              cases hk : keysOf cfg p 0 xs with
               | error e => rw [hk] at h; cases h
               | ok ks =>
                 rw [hk] at h
                 simp only at h ⊢
-                cases hk' : keysOf cfg p ys with
+                cases hk' : keysOf cfg p 0 ys with
                 | error e => rw [hk'] at h; cases h
                 | ok ko =>
                   rw [hk'] at h
@@ -609,8 +601,8 @@ def noExcl (cfg : Cfg) : Cfg := { cfg with excl := .many [] }
 @[simp] theorem onlyOk_noExcl (cfg : Cfg) (p : Path) : onlyOk (noExcl cfg) p = onlyOk cfg p := rfl
 @[simp] theorem classifyItem_noExcl (cfg : Cfg) (p pne pdt : Path) (sa oa x y : Val) :
     classifyItem (noExcl cfg) p pne pdt sa oa x y = classifyItem cfg p pne pdt sa oa x y := rfl
-@[simp] theorem keysOf_noExcl (cfg : Cfg) (p : Path) (xs : List Val) : keysOf (noExcl cfg) p xs = keysOf cfg p xs :=
-  keysOf_congr (noExcl cfg) cfg rfl rfl p xs
+@[simp] theorem keysOf_noExcl (cfg : Cfg) (p : Path) (i : Nat) (xs : List Val) : keysOf (noExcl cfg) p i xs = keysOf cfg p i xs :=
+  keysOf_congr (noExcl cfg) cfg rfl rfl p i xs
 
 /-- the filter below prefix `p`: only the part of the path after `p` is walked -/
 def exKeep (ex : PatArg) (p q : Path) : Bool := !exclHit ex p (q.drop p.length)
@@ -995,12 +987,12 @@ theorem sub_excl (cfg : Cfg) (site : Site) (p : Path) (v w : Val) (r : Res)
               · rw [if_pos h4] at h
                 exact directWalk_below (noExcl cfg) p _ _ 0 xs ys r h
               · rw [if_neg h4] at h
-                cases hk : keysOf cfg p xs with
+                cases hk : keysOf cfg p 0 xs with
                 | error e => rw [hk] at h; cases h
                 | ok ks =>
                   rw [hk] at h
                   simp only at h
-                  cases hk' : keysOf cfg p ys with
+                  cases hk' : keysOf cfg p 0 ys with
                   | error e => rw [hk'] at h; cases h
                   | ok ko =>
                     rw [hk'] at h
@@ -1015,12 +1007,12 @@ theorem sub_excl (cfg : Cfg) (site : Site) (p : Path) (v w : Val) (r : Res)
             · rw [if_pos h4] at h ⊢
               exact directWalk_excl cfg p _ _ 0 xs ys r h3 h
             · rw [if_neg h4] at h ⊢
-              cases hk : keysOf cfg p xs with
+              cases hk : keysOf cfg p 0 xs with
               | error e => rw [hk] at h; cases h
               | ok ks =>
                 rw [hk] at h
                 simp only at h ⊢
-                cases hk' : keysOf cfg p ys with
+                cases hk' : keysOf cfg p 0 ys with
                 | error e => rw [hk'] at h; cases h
                 | ok ko =>
                   rw [hk'] at h
